@@ -355,7 +355,11 @@ def build_programs(n_random, seed, families=True, targets=False):
         # every 8th program (another residue) is a CLOSURE whose body contains a comprehension that re-uses one of its
         # free-variable names as iteration variable (3.12 inlines the comprehension: the name is in co_varnames AND in
         # co_freevars, with a slot each)
-        out.append({"body": body, "async": has_async(body), "nm": nm, "pad": len(out) % 8 == 5, "closure": len(out) % 8 == 3})
+        out.append({"body": body, "async": has_async(body), "nm": nm, "pad": len(out) % 8 == 5, "closure": len(out) % 8 == 3,
+                    # ... and every 8th (a third residue) holds a comprehension whose loop variable is CAPTURED by a lambda:
+                    # 3.12 inlines the comprehension and makes that variable a cell of the program's own frame -- a
+                    # name that is in co_varnames and co_cellvars without being an argument
+                    "lamcomp": len(out) % 8 == 6})
     return out
 
 
@@ -427,6 +431,8 @@ def render(prog, carrier, running=False, first_line=1, py=(3, 12)):
     r.lines.append(B + "    kname = 'kn'; kzero = 0; unset = None")
     if base:
         r.lines.append(B + "    _q = [cvar for cvar in (kzero,)]; _w = (cvar, cother)")
+    if prog.get("lamcomp"):
+        r.lines.append(B + "    _lz = [lambda: lzv for lzv in (kzero, kzero)]")
     pad = bool(prog.get("pad"))
     if pad:
         r.lines.append(B + "    _pad = [" + ", ".join("G%d" % k for k in range(300)) + "]")
